@@ -191,20 +191,32 @@ def ellipsis_position(ind: SSeq, e):
                   z3.Implies(e < n, IX.is_ell(ind.get(e).term)))
 
 
+E_GHOST = z3.Int('ellipsis_position')       # ghost: position of the first Ellipsis of self.indices, or len(self.indices)
+
+
 def axes_loop_specs(get_ind):
+    """loop contracts of indexed_axes.  They talk about the list being built (the one local bound to a list) and about
+    the ghost E_GHOST, not about the code's own temporaries: that the code's ellipsis position equals the ghost is
+    re-derived by the solver from `tuple.index`'s contract on every obligation."""
+    def list_name(L):
+        names = [k for k, v in L.fr.vars.items() if isinstance(v, B.PyList)]
+        if len(names) != 1:
+            from pyvc.values import Unsupported
+            raise Unsupported(f'indexed_axes: expected exactly one list under construction, found {names}')
+        return names[0]
+
     def as_seq(L):
-        v = L.var('axes')
-        return v.as_seq() if isinstance(v, B.PyList) else B.as_seq(L.interp, v)
+        return L.var(list_name(L)).as_seq()
 
     def havoc(L):
-        L.set('axes', B.PyList(None, seq=SSeq.fresh('axes', kind='list')))
+        L.set(list_name(L), B.PyList(None, seq=SSeq.fresh('axes', kind='list')))
 
     def common(L):
         ind = get_ind(L)
         arr = ind_array(L.run, ind)
         n = to_z3(ind.length)
-        e = to_z3(L.var('ellipsis_index'))
-        return ind, arr, n, e
+        L.run.assume(ellipsis_position(ind, E_GHOST))        # definition of the ghost
+        return ind, arr, n, E_GHOST
 
     def inv0(L):
         ind, arr, n, e = common(L)
@@ -262,7 +274,7 @@ def build_axes(ck, T):
         if not ok:
             return
         A = r.as_seq()
-        e = fresh_int('e')
+        e = E_GHOST
         S.assume(ellipsis_position(ind, e))         # definition of the ghost e
         arr = ind_array(S.run, ind)
         IX.rank_unfold(S.run, arr, ind.length, e, [e, ind.length])
@@ -482,7 +494,7 @@ def build_rules(ck, T):
         e = fresh_int('e')
         S.assume(ellipsis_position(ind, e))
         for xl in xs:
-            S.assume(xl.wf())
+            S.assume(xl.wf(min_dim=1))      # no empty axis (an empty axis admits no in-bounds integer index)
             # in-bounds: the tuple addresses existing axes of every leaf
             S.assume(n - z3.If(e < n, 1, 0) <= ST.f_ndim(xl.term))
         p = mk_index_op(S, 'p', ind, xin, unique)
